@@ -62,6 +62,9 @@ pub struct Violation {
     pub detail: String,
     /// the printed form of the item involved, when there is one (used by known-finding matching)
     pub printed: Option<String>,
+    /// the text the item was parsed from, when it came from text (known-finding matching)
+    #[serde(default)]
+    pub source: Option<String>,
 }
 
 fn viol(class: &str, detail: String, printed: Option<&str>) -> Violation {
@@ -69,6 +72,7 @@ fn viol(class: &str, detail: String, printed: Option<&str>) -> Violation {
         class: class.to_string(),
         detail,
         printed: printed.map(|s| s.to_string()),
+        source: None,
     }
 }
 
@@ -184,6 +188,8 @@ impl Item for Range {
 pub struct Built<T> {
     pub item: T,
     pub strict: bool,
+    /// the text it was parsed from, if it was
+    pub source: Option<String>,
 }
 
 pub struct Rec<T> {
@@ -436,24 +442,39 @@ struct ReadResult<T> {
     reentered: usize,
 }
 
+/// `deserialize_in_place` into storage that already holds `seed` (clones of it).
+fn decode_in_place<'de, T: Item, D: serde::Deserializer<'de>>(shape: Shape, d: D, seed: &T) -> Result<Vec<T>, D::Error> {
+    match shape {
+        Shape::One => {
+            let mut slot = seed.clone();
+            Deserialize::deserialize_in_place(d, &mut slot)?;
+            Ok(vec![slot])
+        }
+        Shape::Many => {
+            let mut v: Vec<T> = vec![seed.clone(), seed.clone(), seed.clone()];
+            Deserialize::deserialize_in_place(d, &mut v)?;
+            Ok(v)
+        }
+        Shape::Opt => {
+            let mut o: Option<T> = Some(seed.clone());
+            Deserialize::deserialize_in_place(d, &mut o)?;
+            Ok(o.into_iter().collect())
+        }
+        _ => decode::<T, D>(shape, d),
+    }
+}
+
+/// `None` in `result` = this delivery does not apply to these bytes (reported as skipped).
 fn run_delivery<T: Item>(
     shape: Shape,
     data: &[u8],
     rp: &ReadPlan,
     search: Option<(Rng, &FaultCfg)>,
     nested: Nested<'_>,
+    in_place_seed: Option<&T>,
     stats: &mut Stats,
-) -> ReadResult<T> {
+) -> (ReadResult<T>, bool) {
     let e2s = |e: &dyn fmt::Display| e.to_string();
-    let many = shape == Shape::Many;
-    let strings = match rp.delivery {
-        Delivery::DeStr | Delivery::DeString | Delivery::DeBorrowed => decode_strings(shape, data),
-        _ => None,
-    };
-    let escaped: Option<String> = match rp.delivery {
-        Delivery::EscapedStr | Delivery::EscapedReader => reencode_escaped(data),
-        _ => None,
-    };
     let mut out = ReadResult {
         result: Ok(Err(String::new())),
         terminal_at: None,
@@ -466,6 +487,22 @@ fn run_delivery<T: Item>(
         nested_errors: Vec::new(),
         reentered: 0,
     };
+    // Deliveries that go through serde_json::Value, or that re-encode the document, presuppose a
+    // well-formed JSON document.  On bytes that are not one (a bit flip put a raw control
+    // character into a string, say) they do not apply: serde_json's typed entry points validate
+    // less than `Value` does for some hints (a bytes hint skips string validation), so a
+    // disagreement there says nothing about the crate.
+    let escaped: Option<String> = match rp.delivery {
+        Delivery::EscapedStr | Delivery::EscapedReader => match reencode_escaped(data) {
+            Some(e) => Some(e),
+            None => return (out, false),
+        },
+        _ => None,
+    };
+    let in_place = matches!(rp.delivery, Delivery::InPlaceStr | Delivery::InPlaceReader);
+    if in_place && in_place_seed.is_none() {
+        return (out, false);
+    }
     stats.inc(match rp.delivery {
         Delivery::Reader => C::dl_reader,
         Delivery::BufReader(_) => C::dl_bufreader,
@@ -476,16 +513,13 @@ fn run_delivery<T: Item>(
         Delivery::DeBorrowed => C::dl_deborrowed,
         Delivery::EscapedStr => C::dl_escaped_str,
         Delivery::EscapedReader => C::dl_escaped_reader,
+        Delivery::InPlaceStr | Delivery::InPlaceReader => C::dl_in_place,
     });
     match rp.delivery {
-        Delivery::Reader | Delivery::BufReader(_) | Delivery::EscapedReader => {
-            let bytes: &[u8] = match (&rp.delivery, &escaped) {
-                (Delivery::EscapedReader, Some(e)) => e.as_bytes(),
-                (Delivery::EscapedReader, None) => {
-                    out.result = Ok(Err("stored bytes are not JSON of the expected shape".into()));
-                    return out;
-                }
-                _ => data,
+        Delivery::Reader | Delivery::BufReader(_) | Delivery::EscapedReader | Delivery::InPlaceReader => {
+            let bytes: &[u8] = match &escaped {
+                Some(e) => e.as_bytes(),
+                None => data,
             };
             out.data_len = bytes.len();
             let (rng, cfg) = match search {
@@ -498,6 +532,13 @@ fn run_delivery<T: Item>(
                 Delivery::BufReader(cap) => {
                     let br = io::BufReader::with_capacity(cap.max(1), &mut reader);
                     read_json::<T, _>(shape, br)
+                }
+                Delivery::InPlaceReader => {
+                    let mut de = serde_json::Deserializer::from_reader(&mut reader);
+                    match decode_in_place::<T, _>(shape, &mut de, in_place_seed.unwrap()) {
+                        Ok(v) => de.end().map(|_| v).map_err(|e| e.to_string()),
+                        Err(e) => Err(e.to_string()),
+                    }
                 }
                 _ => read_json::<T, _>(shape, &mut reader),
             });
@@ -513,17 +554,24 @@ fn run_delivery<T: Item>(
             out.log = reader.log.0;
             out.result = res;
         }
-        Delivery::Str | Delivery::EscapedStr => {
-            let text: Option<&str> = match (&rp.delivery, &escaped) {
-                (Delivery::EscapedStr, Some(e)) => Some(e.as_str()),
-                (Delivery::EscapedStr, None) => None,
-                _ => std::str::from_utf8(data).ok(),
+        Delivery::Str | Delivery::EscapedStr | Delivery::InPlaceStr => {
+            let text: Option<&str> = match &escaped {
+                Some(e) => Some(e.as_str()),
+                None => std::str::from_utf8(data).ok(),
             };
             out.result = match text {
-                None => Ok(Err("not UTF-8 / not JSON of the expected shape".into())),
+                // `from_str` needs a `&str`; on bytes that are not UTF-8 this delivery does not
+                // exist (and `from_slice` may still succeed when the bad bytes sit in a part of
+                // the document it skips without validating, such as an unknown field)
+                None => return (out, false),
                 Some(t) => guarded(|| {
                     let mut de = serde_json::Deserializer::from_str(t);
-                    match decode::<T, _>(shape, &mut de) {
+                    let r = if in_place {
+                        decode_in_place::<T, _>(shape, &mut de, in_place_seed.unwrap())
+                    } else {
+                        decode::<T, _>(shape, &mut de)
+                    };
+                    match r {
                         Ok(v) => de.end().map(|_| v).map_err(|e| e2s(&e)),
                         Err(e) => Err(e2s(&e)),
                     }
@@ -532,43 +580,13 @@ fn run_delivery<T: Item>(
         }
         Delivery::Value => {
             out.result = match serde_json::from_slice::<serde_json::Value>(data) {
-                Err(e) => Ok(Err(e2s(&e))),
+                Err(_) => return (out, false),
                 Ok(v) => guarded(|| decode::<T, _>(shape, v).map_err(|e| e2s(&e))),
             };
         }
-        Delivery::DeStr | Delivery::DeString | Delivery::DeBorrowed => {
-            out.result = match &strings {
-                None => Ok(Err("stored bytes are not JSON of the expected shape".into())),
-                Some(ss) => guarded(|| {
-                    let r: Result<Vec<T>, ValueError> = match (rp.delivery, many) {
-                        (Delivery::DeStr, false) => {
-                            T::deserialize(IntoDeserializer::<ValueError>::into_deserializer(ss[0].as_str()))
-                                .map(|t| vec![t])
-                        }
-                        (Delivery::DeStr, true) => Vec::<T>::deserialize(SeqDeserializer::new(
-                            ss.iter().map(|s| s.as_str()),
-                        )),
-                        (Delivery::DeString, false) => {
-                            T::deserialize(IntoDeserializer::<ValueError>::into_deserializer(ss[0].clone()))
-                                .map(|t| vec![t])
-                        }
-                        (Delivery::DeString, true) => {
-                            Vec::<T>::deserialize(SeqDeserializer::new(ss.iter().cloned()))
-                        }
-                        (_, false) => {
-                            T::deserialize(BorrowedStrDeserializer::<ValueError>::new(ss[0].as_str()))
-                                .map(|t| vec![t])
-                        }
-                        (_, true) => Vec::<T>::deserialize(SeqDeserializer::new(
-                            ss.iter().map(|s| BorrowedItem(s.as_str())),
-                        )),
-                    };
-                    r.map_err(|e| e2s(&e))
-                }),
-            };
-        }
+        Delivery::DeStr | Delivery::DeString | Delivery::DeBorrowed => return (out, false),
     }
-    out
+    (out, true)
 }
 
 // ------------------------------------------------------------------------------------------------
@@ -752,7 +770,7 @@ fn build_rec_versions(spec: &ValueSpec, stats: &mut Stats) -> Option<Rec<Version
             VSrc::Fields(_) => stats.inc(C::values_from_fields),
             VSrc::Tuple { .. } => stats.inc(C::values_from_tuple),
         }
-        Some(Built { item: v, strict: true })
+        Some(Built { item: v, strict: true, source: match s { VSrc::Text(t) => Some(t.clone()), _ => None } })
     };
     match spec {
         ValueSpec::Versions { shape, items } => {
@@ -784,7 +802,7 @@ fn build_rec_ranges(spec: &ValueSpec, stats: &mut Stats) -> Option<Rec<Range>> {
                 } else {
                     stats.inc(C::values_from_setop);
                 }
-                Some(Built { item: r, strict: s.is_parsed() })
+                Some(Built { item: r, strict: s.is_parsed(), source: match s { RSrc::Text(t) => Some(t.clone()), _ => None } })
             }
         }
     };
@@ -806,6 +824,7 @@ fn build_rec_ranges(spec: &ValueSpec, stats: &mut Stats) -> Option<Rec<Range>> {
 
 pub fn execute(plan: &Plan, search: Option<Search>, stats: &mut Stats) -> Outcome {
     stats.inc(C::runs);
+    crate::stubs::PROGRESS.fetch_add(1, std::sync::atomic::Ordering::Relaxed);
     match &plan.value {
         ValueSpec::Versions { .. } => {
             let rec = build_rec_versions(&plan.value, stats);
@@ -872,10 +891,14 @@ where
 
     // ---- G0 ------------------------------------------------------------------------------------
     let mut printed: Vec<String> = Vec::new();
-    let mut g0_ok = true;
+    let mut g0_ok_items: Vec<bool> = Vec::new();
     for b in rec.items() {
+        let first_new = viols.len();
         let g = g0_item(b, &mut viols, stats);
-        g0_ok &= g.ok;
+        for v in viols[first_new..].iter_mut() {
+            v.source = b.source.clone();
+        }
+        g0_ok_items.push(g.ok);
         match g.printed {
             Some(s) => printed.push(s),
             None => {
@@ -1075,8 +1098,29 @@ where
             let pretty = plan.knobs.pretty;
             match guarded(|| if pretty { serde_json::to_vec_pretty(&w) } else { serde_json::to_vec(&w) }) {
                 Ok(Ok(bytes)) => bytes,
-                // cannot serialise even in memory: reported by the baseline above
-                _ => from_printed,
+                _ => {
+                    // This Serialize cannot put the value into this document shape even in memory
+                    // (a range serialised as a JSON list cannot be an object key, say).  C13 does
+                    // not promise any particular JSON representation, and the bare value's own
+                    // serde round trip was checked by the baseline above, so there is nothing to
+                    // persist and recover for this record.
+                    stats.inc(C::records_not_serialisable_in_shape);
+                    let nontrivial = fmt_faults > 0 || reentered > 0;
+                    if nontrivial {
+                        stats.inc(C::runs_nontrivial);
+                    }
+                    return Outcome {
+                        effective,
+                        violations: viols,
+                        advisory: vec![],
+                        log_digest: log.0,
+                        nontrivial,
+                        dedup_key: 0,
+                        built: true,
+                        summary: serde_json::json!({"value": spec_text(&plan.value), "printed": printed, "note": "not serialisable in this document shape"}),
+                        counts,
+                    };
+                }
             }
         }
     };
@@ -1308,10 +1352,11 @@ where
 
     // ---- R: recovery -------------------------------------------------------------------------------
     // reference reading of the surviving bytes: in memory, no faults
-    let reference = run_delivery::<T>(
+    let (reference, reference_applies) = run_delivery::<T>(
         shape,
         &data,
         &ReadPlan { delivery: Delivery::Str, sched: vec![] },
+        None,
         None,
         None,
         stats,
@@ -1364,7 +1409,8 @@ where
         }
     };
     if let Some(e_ref) = &e_ref {
-        // sanity of the reference itself: from_str and from_slice agree
+        // sanity of the reference itself: from_str and from_slice agree (on UTF-8 input)
+        if reference_applies {
         match &reference.result {
             Err(p) => viols.push(viol("R-panic", format!("from_str panicked: {}", p), fp)),
             Ok(got) => {
@@ -1376,6 +1422,7 @@ where
                     ));
                 }
             }
+        }
         }
         if flipped {
             match e_ref {
@@ -1395,7 +1442,7 @@ where
             stats.inc(C::r1_durability_checked);
             match e_ref {
                 Err(e) => {
-                    if g0_ok {
+                    if g0_ok_items.iter().all(|ok| *ok) {
                         viols.push(viol(
                             "R1-intact-record-unreadable",
                             format!("record {:?} is intact but reading it fails: {}", String::from_utf8_lossy(&j), e),
@@ -1410,8 +1457,13 @@ where
                             format!("wrote {} item(s), read {}", rec.items().len(), vals.len()),
                             fp,
                         ));
-                    } else if g0_ok {
-                        for ((y, b), s) in vals.iter().zip(rec.items()).zip(&printed) {
+                    } else {
+                        for (((y, b), s), ok) in vals.iter().zip(rec.items()).zip(&printed).zip(&g0_ok_items) {
+                            // an item whose printed form does not even re-parse in memory was
+                            // reported by the baseline; the same failure is not reported twice
+                            if !*ok {
+                                continue;
+                            }
                             let r = guarded(|| T::same_after_round_trip(&b.item, y, s, b.strict));
                             let bad = match r {
                                 Err(p) => Some(p),
@@ -1477,14 +1529,17 @@ where
     effective.reads.clear();
     for (k, rp) in read_plans.iter().enumerate() {
         let applies = match rp.delivery {
-            // the serde::de::value deserializers carry bare strings: only bare values and arrays
-            Delivery::DeStr | Delivery::DeString | Delivery::DeBorrowed => matches!(shape, Shape::One | Shape::Many),
+            Delivery::DeStr | Delivery::DeString | Delivery::DeBorrowed => false,
             // serde_json::Value keeps one entry per key; a document with duplicate keys (two
             // equal items, or a bit flip) legitimately reads differently through it
             Delivery::Value => shape != Shape::Keyed,
+            Delivery::InPlaceStr | Delivery::InPlaceReader => {
+                matches!(shape, Shape::One | Shape::Many | Shape::Opt) && nested.is_some()
+            }
             _ => true,
         };
         if !applies {
+            stats.inc(C::deliveries_not_applicable);
             counts.read_calls.push(0);
             effective.reads.push(rp.clone());
             continue;
@@ -1494,7 +1549,13 @@ where
             _ => None,
         };
         stats.inc(C::reads_total);
-        let mut rr = run_delivery::<T>(shape, &data, rp, s, Some(&nested_de), stats);
+        let (mut rr, applied) = run_delivery::<T>(shape, &data, rp, s, Some(&nested_de), nested.as_ref().map(|n| &n.0), stats);
+        if !applied {
+            stats.inc(C::deliveries_not_applicable);
+            counts.read_calls.push(0);
+            effective.reads.push(rp.clone());
+            continue;
+        }
         reentered += rr.reentered;
         for e in rr.nested_errors.drain(..) {
             viols.push(viol("N3-reentrant-deserialize-wrong", e, nested.as_ref().map(|n| n.1.as_str())));
